@@ -90,6 +90,10 @@ namespace cnl::_impl {
                 if (!oob(output.significand)) {
                     output.significand *= InRadix;
                     in_exponent--;
+                } else {
+                    // out of room: drop a digit (neither branch made progress before)
+                    output.significand /= OutRadix;
+                    output.exponent++;
                 }
             }
         }
